@@ -185,6 +185,10 @@ class Writer:
                 out.append(x.src)
             elif k == 'rawhtml':
                 out.append(x.s)
+            elif k in ('soft', 'hard'):
+                # a line break inside emphasis / link text (directed paragraphs only; `para`
+                # splits the text at the line feed); '\n' in a code span or a title works alike
+                out.append(('' if k == 'soft' else self.pick(['  ', '\\'])) + '\n')
             else:
                 raise ValueError('inline %s not allowed here' % k)
         return ''.join(out)
@@ -230,6 +234,10 @@ class Writer:
     def para(self, b, ctx):
         out = []
         parts = self.inline_lines(b.inl)
+        if any('\n' in text for text, _ in parts):
+            # line feeds written by nested inlines: more paragraph continuation lines
+            parts = [(sub, br if j == text.count('\n') else None)
+                     for text, br in parts for j, sub in enumerate(text.split('\n'))]
         for i, (text, br) in enumerate(parts):
             if br == 'hard':
                 text += self.pick(['  ', '\\', '   '])
@@ -244,8 +252,14 @@ class Writer:
     def atx(self, b, ctx):
         s = ' ' * self.indent(ctx) + '#' * b.level + self.pick([' ', '  ', '   '])
         s += self.inlines(b.inl)
+        if not b.inl and self.chance(0.3):
+            # an empty heading (directed trees only) may be the bare opening sequence
+            return [L(s.rstrip(' '), starts=[b.id])]
         if self.chance(0.4):
-            s += self.pick([' ', '  ']) + '#' * self.r.randint(1, 8) + self.pick(['', ' ', '  '])
+            sep = self.pick([' ', '  '])
+            if not b.inl and self.chance(0.5):
+                sep = ''            # '### ###': one space serves the opening and the closing run
+            s += sep + '#' * self.r.randint(1, 8) + self.pick(['', ' ', '  '])
         return [L(s, starts=[b.id])]
 
     def setext(self, b, ctx):
@@ -304,15 +318,27 @@ class Writer:
     def table(self, b, ctx):
         ncol = len(b.aligns)
 
-        def row(cells, ident):
+        def row(cells, ident, node=None):
             texts = [self.inlines(c.inl) for c in cells]
             outer = ncol == 1 or any(t == '' for t in texts) or not self.chance(0.3)
+            # directed trees: a body row may be written without its trailing empty cells
+            # (`short` = how many), with cells beyond the last column (`extra`: texts; GFM
+            # ignores the excess) or, if it is left with one cell, without any pipe (`nopipe`)
+            short = getattr(node, 'short', 0)
+            if short:
+                assert all(t == '' for t in texts[-short:]) and short < len(texts)
+                texts = texts[:-short]
+            texts = texts + list(getattr(node, 'extra', ()))
+            if getattr(node, 'nopipe', False):
+                assert len(texts) == 1 and texts[0] and '|' not in texts[0]
+                return L(texts[0], starts=ident)
             parts = []
             for t in texts:
                 lp = self.pick([' ', '', '  '])
                 rp = self.pick([' ', '', '  '])
                 if t == '':
-                    lp, rp = ' ', ''
+                    # (directed trees: `bare` rows write an empty cell without any space, '||')
+                    lp, rp = ('', '') if getattr(node, 'bare', False) else (' ', '')
                 if t.endswith('\\') and rp == '':
                     rp = ' '
                 parts.append(lp + t + rp)
@@ -343,7 +369,7 @@ class Writer:
             s = s.strip(' ')
         out.append(L(s))
         for r in b.rows:
-            out.append(row(r.cells, [r.id] + [c.id for c in r.cells]))
+            out.append(row(r.cells, [r.id] + [c.id for c in r.cells], r))
         return out
 
     # -- containers -----------------------------------------------------------------------
